@@ -804,7 +804,8 @@ def run(ctx: core.Ctx) -> None:
     plans = [(2, "cold", 1), (2, "nofolder", 1), (2, "valid-quick-only", 2), (2, "empty", 1), (2, "truncated", 2), (2, "stale", 1), (2, "outdated", 1), (2, "valid", 1)]
     if ctx.tier == "thorough":
         plans = [(2, "cold", 2), (2, "nofolder", 3), (3, "nofolder", 2), (2, "valid-quick-only", 3), (2, "empty", 3), (2, "truncated", 3), (2, "stale", 2), (2, "outdated", 2), (2, "valid", 2),
-                 (3, "valid-quick-only", 2), (3, "truncated", 2), (3, "empty", 1)]
+                 (3, "valid-quick-only", 2), (3, "truncated", 2), (3, "empty", 1),
+                 (4, "cold", 1), (4, "truncated", 1)]
     else:
         plans += [(3, "truncated", 1)]
     sched_cov = {}
